@@ -68,6 +68,9 @@ def jobs(tier, ctx):
         out.append(J('robust_%s.n%d' % (nm, nb), ['MODE_ROB=1', 'NB=%d' % nb, 'PFX=' + pfx] + (['VERIF_ARRAY_ITEMS=8', 'VERIF_NO_XALLOC=1'] if typed else []),
                      'restore_svalue on the prefix %s followed by any %d bytes: memory safe, success or ROB error, parser state idle, next restore unaffected' % (pfx, nb),
                      '%d symbolic bytes after a concrete first-byte class' % nb, targets=['restore_svalue'], opt_witness=['error_result', 'success_result'], unwind=nb + 4, unwindset=RUW, timeout=600, **({'stubs': BASE + ['@harness/C16/stubs.c', '@world/typed_arrays.c']} if typed else {})))
+    out.append(J('atomic_save', ['VERIF_NO_XALLOC=1', 'ATOMIC_SAVE=1'], 'save_object of an object with one number variable on a file system in which fopen, every fprintf, the fclose flush and rename may each fail: the previous save file is only replaced by rename(tmp, final) after every write and the flush succeeded; failure is reported',
+                 'outcome of fopen / each fprintf / fclose / rename, variable values, save_zeros, master verdict on the path', targets=['save_object', 'save_object_recurse'], unwind=24, mem_gb=4,
+                 opt_witness=['saved', 'write_failed', 'flush_failed_at_fclose', 'rename_failed'], srcs=['@harness/C16/atomic_save.c'] + REAL, nobody_ok=['*']))
     # single-byte damage of well-formed container texts (arrays, mappings, classes, nesting): one job per (text, position)
     bases = ['({7,})', '({({7,}),8,})', '([1:2,])', '({"a",})', '(/7,/)'] if q else ['({7,})', '({({7,}),8,})', '([1:2,])', '({"a",})', '(/7,/)', '({([1:2,]),})', '([({7,}):({8,}),])', '({(/7,/),"b\\"",-1,})']
     for bi, b in enumerate(bases if EXP else []):
